@@ -23,6 +23,7 @@ type caseC08 struct {
 	Together bool   `json:"together"` // failure arrives together with the last delivered bytes
 	Delivery string `json:"delivery"` // "contiguous" | "bytewise" | "chunks"
 	Chunks   []int  `json:"chunks,omitempty"`
+	Reader   string `json:"reader,omitempty"` // "" / script, bufio16, bufio4096
 }
 
 func checkC08(c caseC08) (sig, msg string) {
@@ -57,7 +58,8 @@ func checkC08(c caseC08) (sig, msg string) {
 	if c.Delivery == "contiguous" && !c.Together {
 		sr.Steps = nil // deliver as much as each Read asks for, then the failure
 	}
-	got := readScripted(sr, len(c.Frame), func() interface{} {
+	rd, _ := wrappedStream(c.Reader, sr)
+	got := readFrom(rd, len(c.Frame), func() interface{} {
 		return vf.Failure{Property: "C08", Kind: "hang", Case: mustJSON(c), Signature: "hang"}
 	})
 	desc := fmt.Sprintf("frame %s cut after %d of %d bytes, %s %s, %s delivery", hx(c.Frame), c.Cut, len(c.Frame), c.Failure, map[bool]string{true: "together with the last bytes", false: "on the next read"}[c.Together], c.Delivery)
@@ -95,7 +97,11 @@ func c08Class(c caseC08) (bool, string) {
 	if c.Together {
 		tg = "with-data"
 	}
-	return c.Cut >= hdr, where + "/" + c.Failure + "/" + tg + "/" + c.Delivery
+	rk := c.Reader
+	if rk == "" {
+		rk = "script"
+	}
+	return c.Cut >= hdr, where + "/" + c.Failure + "/" + tg + "/" + c.Delivery + "/" + rk
 }
 
 func TestC08(t *testing.T) {
@@ -148,9 +154,10 @@ func TestC08(t *testing.T) {
 			if c.Delivery == "bytewise" && k > 4096 {
 				c.Delivery = "contiguous"
 			}
+			c.Reader = rapid.SampledFrom([]string{"script", "script", "script", "bufio16", "bufio4096"}).Draw(t, "reader")
 			sig, msg := checkC08(c)
 			nt, class := c08Class(c)
-			r.Case(vf.FPs(string(frame), fmt.Sprint(c.Cut, c.Failure, c.Together, c.Delivery, c.Chunks)), nt, kind+"/"+class, func() interface{} {
+			r.Case(vf.FPs(string(frame), fmt.Sprint(c.Cut, c.Failure, c.Together, c.Delivery, c.Chunks, c.Reader)), nt, kind+"/"+class, func() interface{} {
 				s := c
 				if len(s.Frame) > 64 {
 					s.Frame = append(Hex(nil), s.Frame[:64]...)
